@@ -2,8 +2,9 @@
    (Generated.v): escape tables of String_Show / String_Look, presence of `continue`, "%lf" in
    Float_Look, the sign-extension rule of scan_from_with.  A change of the C text that breaks a
    side condition makes a `vm_compute` proof here fail = broken obligation. *)
-From Coq Require Import List NArith ZArith Bool Lia.
-From CelloV Require Import Generated RoundTrip RoundTripProofs.
+From Coq Require Export List NArith ZArith.
+From Coq Require Import Bool Lia.
+From CelloV Require Import Generated RoundTrip RoundTripProofs RoundTripFloat.
 Import ListNotations.
 Local Open Scope N_scope.
 
@@ -74,3 +75,63 @@ Example ex_show_seq_run :
   scan_str rt_cfg ([112; 112] ++ print_items rt_cfg ex_items ++ [32; 120]) 2 (map sitem_of ex_items) []
   = SOk [VInt (-42); VStr [97; 10; 98]; VInt 9223372036854775807] 33.
 Proof. vm_compute. reflexivity. Qed.
+
+(* ------------------------------------------------------------------ Floats and numeric directives *)
+
+Lemma rt_cfg_ok_float : config_ok_float rt_cfg.
+Proof. split; [exact rt_cfg_ok | vm_compute; reflexivity]. Qed.
+
+Lemma rt_seq_string : forall its sits pre rest, wf_seq rt_cfg its sits rest ->
+  exists vs',
+    scan_str rt_cfg (fst (print_to_string rt_cfg pre (length pre) its) ++ rest) (length pre) sits []
+    = SOk vs' (snd (print_to_string rt_cfg pre (length pre) its))
+    /\ Forall2 value_close (values_of its) vs'.
+Proof. intros. now apply wf_seq_roundtrip_string; [apply rt_cfg_ok_float|]. Qed.
+
+Lemma rt_seq_file : forall its sits old rest, wf_seq rt_cfg its sits rest -> lits_plain its ->
+  exists vs',
+    scan_file rt_cfg (skipn (length old) (fst (print_to_file rt_cfg old (length old) its) ++ rest)) (length old) sits []
+    = SOk vs' (snd (print_to_file rt_cfg old (length old) its))
+    /\ Forall2 value_close (values_of its) vs'.
+Proof. intros. now apply wf_seq_roundtrip_file; [apply rt_cfg_ok_float| |]. Qed.
+
+Lemma rt_float_show_look : forall b rest, finite b -> stops_float rest ->
+  exists b', look_value rt_cfg TFloat (show_value rt_cfg (VFloat b) ++ rest)
+             = Some (VFloat b', length (show_value rt_cfg (VFloat b)))
+             /\ float_close 6 b b'.
+Proof.
+  intros b rest Hf Hr. destruct (show_float_item rt_cfg b rest rt_cfg_ok_float Hf Hr) as [b' Hi].
+  exists b'. inversion Hi; subst.
+  - match goal with H : showable (VFloat _) |- _ => destruct H end.
+  - split; assumption.
+Qed.
+
+(* F6 as found: a d directive without `l` stores 32 bits into a zeroed long; -5 comes back as 2^32 - 5 *)
+Definition spec_d : nspec := {| n_conv := 100; n_long := false; n_plus := false; n_space := false;
+                                n_zero := false; n_alt := false; n_width := 0; n_prec := None |}.
+Definition cfg_no_signext : config :=
+  {| cf_show_esc := rt_show_escapes; cf_look_esc := rt_look_escapes; cf_look_cont := true;
+     cf_float_look_long := true; cf_int_signext := false |}.
+
+Lemma rt_scan_d_zero_extends_refuted :
+  exists z, (- two31 <= z < two31)%Z /\
+    scan_num cfg_no_signext spec_d (print_num spec_d (VInt z)) <> Some (VInt z, length (print_num spec_d (VInt z))).
+Proof. exists (-5)%Z. split; [unfold two31; lia|]. vm_compute. discriminate. Qed.
+
+Lemma rt_scan_d_repaired_example :
+  scan_num rt_cfg spec_d (print_num spec_d (VInt (-5))) = Some (VInt (-5), 2%nat).
+Proof. vm_compute. reflexivity. Qed.
+
+Definition ex_items_f : list pitem :=
+  [PShow (VFloat 4728057454355442549); PLit [44; 32]; PShow (VStr [97; 34]); PLit [59];
+   PNum spec_li (VInt (-7)); PLit [32]; PNum (spec_f true) (VFloat 4591870180066957722)].
+Definition ex_sitems_f : list sitem :=
+  [SLook TFloat; SLit [44; 32]; SLook TStr; SLit [59]; SNum spec_li; SLit [32]; SNum (spec_f true)].
+
+Example ex_wf_seq : wf_seq rt_cfg ex_items_f ex_sitems_f ex_rest.
+Proof.
+  vm_compute. repeat split; try (intros; discriminate); try lia; repeat constructor; try discriminate.
+Qed.
+
+Example ex_finite : finite 4728057454355442549.
+Proof. vm_compute. discriminate. Qed.
